@@ -223,7 +223,11 @@ func BuildMsg(actors []*Actor, m *MsgSpec) (sdk.Msg, error) {
 		// a one-member group whose policy passes with that member's vote
 		msg := &group.MsgCreateGroupWithPolicy{Admin: A, Members: []group.MemberRequest{{Address: A, Weight: "1"}}}
 		var pol group.DecisionPolicy = group.NewThresholdDecisionPolicy("1", time.Hour, 0)
-		if m.N == 2 {
+		if m.N == 3 {
+			// two members whose weights are legal decimals very far apart
+			msg.Members = []group.MemberRequest{{Address: A, Weight: "1e-50000"}, {Address: B, Weight: "6e50000"}}
+		}
+		if m.N == 2 || m.N == 3 {
 			// a share of the group's total weight instead of an absolute number; short voting period
 			pol = group.NewPercentageDecisionPolicy("0.5", 10*time.Second, 0)
 		}
@@ -231,6 +235,8 @@ func BuildMsg(actors []*Actor, m *MsgSpec) (sdk.Msg, error) {
 			return nil, err
 		}
 		return msg, nil
+	case "grp.vote":
+		return &group.MsgVote{ProposalId: m.Id, Voter: A, Option: group.VOTE_OPTION_YES}, nil
 	case "grp.leave":
 		return &group.MsgLeaveGroup{Address: A, GroupId: m.Id}, nil
 	case "grp.submit":
